@@ -146,7 +146,7 @@ func (q Quantity) timeDuration() (time.Duration, error) {
 	case "minute", "minutes":
 		duration = time.Minute * time.Duration(value)
 	case "second", "seconds":
-		milliseconds := decimal.Decimal(q.value).Round(3).Shift(3).IntPart() // Keep decimal precision below seconds
+		milliseconds := decimal.Decimal(q.value).Truncate(3).Shift(3).IntPart() // Keep decimal precision below seconds; what lies below a millisecond is dropped
 		duration = time.Millisecond * time.Duration(milliseconds)
 	case "millisecond", "milliseconds":
 		duration = time.Millisecond * time.Duration(value)
